@@ -146,36 +146,23 @@ Proof.
 Qed.
 Print Assumptions C10_rect_radii_equiv.
 
-(* ---- known findings: full-strength clauses refuted on the faithful model, guarded versions proved ---- *)
-(* class use-symbol-percent-size: the size of a use of a symbol is resolved twice *)
-Theorem C10_symbol_use_size_refuted :
-  exists vp l, slen_relative l = true /\ ~ (symbol_use_side vp l == spec_use_side vp l)%Q.
-Proof. exact symbol_use_side_refuted. Qed.
-Print Assumptions C10_symbol_use_size_refuted.
-Theorem C10_symbol_use_size_guarded : forall vp l,
-  slen_relative l = false -> symbol_use_side vp l = spec_use_side vp l.
-Proof. exact symbol_use_side_guarded. Qed.
-Print Assumptions C10_symbol_use_size_guarded.
+(* the size of a use of a symbol is its width / height resolved once against the viewport (full strength since 72e1d38;
+   former class use-symbol-percent-size) *)
+Theorem C10_symbol_use_size : forall vp l, (symbol_use_side vp l == spec_use_side vp l)%Q.
+Proof. exact symbol_use_side_spec. Qed.
+Print Assumptions C10_symbol_use_size.
 
-(* class nested-svg-group-attrs-twice: the style / transform of a nested svg element are applied twice *)
-Theorem C10_nested_svg_refuted :
-  exists t_attr st new_ts clip k sh,
-    match leaves_of (convert_nested_svg t_attr st new_ts clip [TLeaf k sh]),
-          leaves_of (expand_nested_svg t_attr st new_ts clip [TLeaf k sh]) with
-    | [(i, o, t)], [(j, p, u)] => ~ (o == p)%Q
-    | _, _ => False
-    end.
-Proof. exact nested_svg_refuted. Qed.
-Print Assumptions C10_nested_svg_refuted.
-Theorem C10_nested_svg_guarded : forall t_attr st new_ts clip k sh,
-  gstyle_neutral st = true -> ts_is_identity t_attr = true ->
+(* a nested svg element = a group with its own style and transform around the viewport clip group around the viewport
+   transform: every leaf gets the same accumulated opacity and transform (full strength since fb5447a; former class
+   nested-svg-group-attrs-twice) *)
+Theorem C10_nested_svg : forall t_attr st new_ts clip k sh,
   match leaves_of (convert_nested_svg t_attr st new_ts clip [TLeaf k sh]),
         leaves_of (expand_nested_svg t_attr st new_ts clip [TLeaf k sh]) with
   | [(i, o, t)], [(j, p, u)] => i = j /\ (o == p)%Q /\ ts_eq t u
   | _, _ => False
   end.
-Proof. exact nested_svg_guarded. Qed.
-Print Assumptions C10_nested_svg_guarded.
+Proof. exact nested_svg_as_groups. Qed.
+Print Assumptions C10_nested_svg.
 
 (* ---- non-vacuity ---------------------------------------------------------------------------------- *)
 Local Open Scope string_scope.
